@@ -330,6 +330,14 @@ def run(chk):
         'theorems are about the model with floor = none and resolution = none (no pruning, no rounding); the effect of the 1e-8 floor and '
         'of rounding on the proved identities is checked by the oracle on the real code only (tolerances 1e-6 relative / 1e-5 Da + rounding allowance)',
     ]
+    chk.assumptions += [
+        'Python round(x, n) / round(x) = round-half-even of the exact value; a case whose pre-rounding key lies within 1e-6 units of a '
+        'rounding boundary, or whose top-k cut has a relative gap < 1e-4, is counted as float-ambiguous and not compared with the model',
+        'float error of sums/products of <= 200 factors is below the comparison tolerance (masses 1e-6, abundances 1e-6 relative + '
+        '400e-8 un-normalised floor allowance, widened only by the per-element extra floor loss measured on the code itself)',
+        'theorems about mean and lightest peak assume floor = none and resolution = None; the oracle bounds the effect of the floor and of '
+        'rounding on the real code by 1e-6 relative / 1e-5 Da + (n_elements+1)/2 * 10^-resolution',
+    ]
     chk.rule = ('cases = (composition, options): elements from C,H,N,O,S,P (+Se,Cl,Br,Fe, + isotope keys 13C 15N D 2H T 18O 17O 34S 12C 1H), counts '
                 '0..12 / 0..50 / 0..200 integer or float (x.0, x.5, random decimals), optional e/p/n entries, 3%% negative counts, 2%% unknown element; '
                 'options drawn over max_isotopes None|1..20, min_abundance_threshold None|0|1e-6|1e-3, resolution 0..6, use_neutron_count x '
